@@ -182,6 +182,32 @@ pub fn run_check(replay: Option<Value>) -> i32 {
                         }
                     }
                 }
+                // the terminal pairs once more with requested times (21 of them over the span): what is reported
+                // before the stop mirrors as well
+                if idx[5] >= 2 && idx[6] <= 1 {
+                    let (mut ct, mut crt) = (c.clone(), cr.clone());
+                    ct.t_eval = Some((0..=20).map(|i| c.x0 + (c.xend - c.x0) * i as f64 / 20.0).collect());
+                    crt.t_eval = Some((0..=20).map(|i| -(c.x0 + (c.xend - c.x0) * i as f64 / 20.0)).collect());
+                    let (at, bt) = (run(p, &ct), run(&pr, &crt));
+                    out.events += at.st.n_ode + bt.st.n_ode;
+                    match (at.sol(), bt.sol()) {
+                        (Some(ta), Some(tb)) => {
+                            let tn: Vec<f64> = tb.t.iter().map(|t| -t).collect();
+                            let k = ta.t.len().saturating_sub(1);
+                            let ok = ta.status == tb.status
+                                && ta.t.len() == tb.t.len()
+                                && ta.t.len() >= 1
+                                && bits_eq(&ta.t[..k], &tn[..k])
+                                && (ta.t[k] - tn[k]).abs() <= 4e-11 * (1.0 + ta.t[k].abs())
+                                && (!exact_expected || ta.y[..k].iter().zip(&tb.y[..k]).all(|(u, v)| bits_eq(u, v)));
+                            if !ok {
+                                viol!("reflection-t-eval", format!("with 21 requested times and a terminal pair: {} samples ending at {:?} (status {:?}), the reflected run {} samples ending at {:?} (status {:?})", ta.t.len(), ta.t.last(), ta.status, tb.t.len(), tn.last(), tb.status));
+                            }
+                            out.tag("terminal-pair-with-t-eval-mirrored");
+                        }
+                        _ => viol!("outcome", format!("runs with t_eval ended with {} / {}", at.outcome_name(), bt.outcome_name())),
+                    }
+                }
                 out.validated = 2;
                 out.fp = Some(a.st.fp.as_u128());
             }
